@@ -58,7 +58,7 @@ def _expected_headers(hs: list[tuple[bytes, bytes]], kind: str, host: bytes) -> 
     quick=[{"flavour": fl, "_pre": f"m == {m}"} for fl in ("sync", "async") for m in range(5)],
     thorough=[{"flavour": fl, "_pre": f"m == {m} and t == {t}"} for fl in ("sync", "async") for m in range(5) for t in range(4)],
     example=dict(m=1, t=0, hs=4, b=3, reuse=True),
-    require=("illegal-head-rejected", "chunked-body", "length-body", "reused-connection", "host-supplied"),
+    require=("illegal-head-rejected", "chunked-body", "length-body", "reused-connection", "host-supplied", "header-list-used-again"),
     timeout={"quick": 300, "thorough": 600},
     symbolic="method (5, one illegal), target form (URL target / 'target' extension origin-form / absolute-form / '*'), header list (7 variants: none, own Host, own Content-Length, own Transfer-Encoding, case-colliding duplicates, illegal name, illegal value), body (none / empty / bytes / 3-chunk iterator with an empty chunk / 1-chunk iterator), first use or reuse of the connection",
     bounds="bodies of 4 bytes; the listed pools of methods/targets/headers",
@@ -95,6 +95,7 @@ def _h1_wire(is_async: bool, method: str, target: typing.Any, headers: list, kin
     n_before = len(su.origins[0].requests) if su.origins else 0
     content, body_bytes = _body(kind, is_async)
     names = {k.lower() for k, _ in headers}
+    given = list(headers)  # what the caller supplied
     if (b"content-length" in names) and kind in ("none", "empty"):
         content, body_bytes, kind = (b"abcd", b"abcd", "bytes")  # keep the declared length truthful
     o = su.api.request(su.pool, method, su.url("p?q=1"), headers=headers, content=content, extensions=ext)
@@ -132,6 +133,17 @@ def _h1_wire(is_async: bool, method: str, target: typing.Any, headers: list, kin
         P.check(all(len(c) > 0 for c in req.chunks), "no-empty-chunk-before-the-end", "h1:empty-chunk")
     elif body_bytes:
         P.cover("length-body")
+    # the caller goes on to use the very same header list (its shared defaults) for a request without a body:
+    # that request is serialised from what the caller supplied, not from what the previous call added for itself
+    o2 = su.api.request(su.pool, "GET", su.url("again"), headers=headers, extensions={"timeout": {"pool": 0, "read": 5, "write": 5}})
+    declared = any(k.lower() in (b"content-length", b"transfer-encoding") for k, _ in given)
+    if not declared and P.check(o2.ok and len(srv.requests) == n_before + 2, "follow-up-request-ok", lambda: f"h1:follow-up:{o2.kind()}"):
+        P.cover("header-list-used-again")
+        want2 = _expected_headers(given, "none", b"example.com")
+        want2 = [kv for kv in want2 if kv[0].lower() == b"host"] + [kv for kv in want2 if kv[0].lower() != b"host"]
+        r2 = srv.requests[-1]
+        P.check(r2.headers == want2 and r2.body == b"", "header-list-of-the-follow-up-request",
+                lambda: f"h1:follow-up-headers:{r2.headers!r}!={want2!r}")
 
 
 @harness(
